@@ -81,7 +81,8 @@ fn write_group(db: &DB, shared: &Shared, group_idx: usize, group: &Group, tag: &
     }
     let c = shared.stamp();
     let _g = watch::enter("apply(batch)");
-    let r = db.apply(WriteOptions::default(), batch);
+    // synchronous and ordinary writers are mixed: a group commit must stop at a synchronous follower
+    let r = db.apply(WriteOptions { synchronous: c % 3 == 0 }, batch);
     let t = shared.stamp();
     shared.batches.lock().push((group_idx, c, t));
     if r.is_err() {
